@@ -14,29 +14,29 @@ namespace PolyVerif
 namespace GraphIO
 
 /-- an event of an editing session: an editing operation, or a load of a saved file into the same application -/
-inductive Ev (J : Type) where
+inductive SEv (J : Type) where
   | edit (o : Op J)
   | load (s : Schema J)
 
 /-- one event; a load decodes the file into an application whose header is the CURRENT header -/
-def evStep {V J} (E : Env V J) (g : Graph V) : Ev J → Except Err (Graph V)
+def evStep {V J} (E : Env V J) (g : Graph V) : SEv J → Except Err (Graph V)
   | .edit o => step E g o
   | .load s => decode E g.hdr s
 
 /-- DEFINITION, as `stepTotal`: a failing event leaves the graph unchanged.  For a failing LOAD this is a modelling
     choice that is NOT tied (Go has already replaced the id table when `ApplyAppSchema` fails half way; the harness
     only loads files the implementation saved, and those load). -/
-def evTotal {V J} (E : Env V J) (g : Graph V) (e : Ev J) : Graph V :=
+def evTotal {V J} (E : Env V J) (g : Graph V) (e : SEv J) : Graph V :=
   match evStep E g e with
   | .ok g' => g'
   | .error _ => g
 
-def runEv {V J} (E : Env V J) (g : Graph V) (evs : List (Ev J)) : Graph V := evs.foldl (evTotal E) g
+def runEv {V J} (E : Env V J) (g : Graph V) (evs : List (SEv J)) : Graph V := evs.foldl (evTotal E) g
 
 /-- the state right after loading `s` into the application in state `g` -/
 def loaded {V J} (E : Env V J) (g : Graph V) (s : Schema J) : Graph V := evTotal E g (.load s)
 
-def edits {J} (ops : List (Op J)) : List (Ev J) := ops.map .edit
+def edits {J} (ops : List (Op J)) : List (SEv J) := ops.map .edit
 
 end GraphIO
 end PolyVerif
